@@ -32,6 +32,9 @@ pub enum LifeOp {
     /// open every index of the bundle that is not open yet (full-range positions), except `skip`, then try to delete the bundle: expands
     /// into the single ops above, so the same model decides every step (a bundle with all 256 positions open is not deletable)
     FillBundle { bundle: u8, skip: Option<u16> },
+    /// one position's whole round trip: deposit, let rewards and fees accrue, withdraw everything, collect everything, stop (or not) the
+    /// reward, then re-range the empty position - expands into the single ops
+    RoundTrip { pos: u16, stop_reward: bool, lower: i32, upper: i32 },
     Increase { pos: u16, #[serde(with = "crate::ser::u128s")] liquidity: u128 },
     Decrease {
         pos: u16,
@@ -47,6 +50,9 @@ pub enum LifeOp {
     UpdateFees { pos: u16 },
     Swap { a_to_b: bool, amount: u64 },
     AdvanceClock(u16),
+    /// the reward authority stops (true) or restarts (false) the emissions of the pool's reward: a stopped reward keeps its growth, and
+    /// positions keep checkpoints against it
+    SetEmissions { stop: bool },
     Close { pos: u16 },
     Reset { pos: u16, lower: TickSel, upper: TickSel },
     Reposition {
@@ -255,6 +261,19 @@ pub fn check_case(c: &LifeCase, l: &mut Local) -> Result<(), String> {
                 }
                 expanded.push(LifeOp::DeleteBundle { bundle: *bundle });
             }
+            LifeOp::RoundTrip { pos, stop_reward, lower, upper } => {
+                expanded.push(LifeOp::Increase { pos: *pos, liquidity: 1u128 << 40 });
+                expanded.push(LifeOp::Swap { a_to_b: true, amount: 1 << 20 });
+                expanded.push(LifeOp::Swap { a_to_b: false, amount: 1 << 20 });
+                expanded.push(LifeOp::AdvanceClock(1000));
+                expanded.push(LifeOp::Decrease { pos: *pos, all: true, by_delegate: false });
+                expanded.push(LifeOp::CollectFees { pos: *pos });
+                expanded.push(LifeOp::CollectReward { pos: *pos });
+                if *stop_reward {
+                    expanded.push(LifeOp::SetEmissions { stop: true });
+                }
+                expanded.push(LifeOp::Reset { pos: *pos, lower: TickSel::Rel(*lower), upper: TickSel::Rel(*upper) });
+            }
             o => expanded.push(o.clone()),
         }
     }
@@ -354,7 +373,7 @@ pub fn check_case(c: &LifeCase, l: &mut Local) -> Result<(), String> {
                     }
                 }
             }
-            LifeOp::FillBundle { .. } => unreachable!("expanded above"),
+            LifeOp::FillBundle { .. } | LifeOp::RoundTrip { .. } => unreachable!("expanded above"),
             LifeOp::DeleteBundle { bundle } => {
                 if s.w.bundles.is_empty() {
                     continue;
@@ -465,6 +484,13 @@ pub fn check_case(c: &LifeCase, l: &mut Local) -> Result<(), String> {
                 let _ = s.w.exec(&ix);
             }
             LifeOp::AdvanceClock(dt) => s.w.advance_clock(*dt as i64),
+            LifeOp::SetEmissions { stop } => {
+                if !s.w.pools[s.pool].rewards.is_empty() {
+                    let mut ix = s.w.ix_set_reward_emissions(s.pool, 0, if *stop { 0 } else { 1u128 << 72 }, false);
+                    ix.accounts[1].is_signer = true;
+                    l.count(if s.w.exec(&ix).ok() { if *stop { "reward_emissions_stopped" } else { "reward_emissions_restarted" } } else { "set_emissions_refused" });
+                }
+            }
             LifeOp::Close { pos } => {
                 let open = s.open_idx();
                 if open.is_empty() {
@@ -723,6 +749,8 @@ fn op_strategy() -> BoxedStrategy<LifeOp> {
         3 => any::<u16>().prop_map(|pos| LifeOp::UpdateFees { pos }),
         6 => (any::<bool>(), (8u32..40).prop_map(|b| 1u64 << b)).prop_map(|(a_to_b, amount)| LifeOp::Swap { a_to_b, amount }),
         2 => (0u16..5000).prop_map(LifeOp::AdvanceClock),
+        1 => any::<bool>().prop_map(|stop| LifeOp::SetEmissions { stop }),
+        2 => (any::<u16>(), any::<bool>(), -12i32..0, 1i32..12).prop_map(|(pos, stop_reward, lower, upper)| LifeOp::RoundTrip { pos, stop_reward, lower, upper }),
         8 => any::<u16>().prop_map(|pos| LifeOp::Close { pos }),
         5 => (any::<u16>(), tick_sel(true), tick_sel(false)).prop_map(|(pos, lower, upper)| LifeOp::Reset { pos, lower, upper }),
         3 => (any::<u16>(), tick_sel(true), tick_sel(false), prop_oneof![3 => Just(false), 1 => Just(true)]).prop_map(|(pos, lower, upper, by_delegate)| LifeOp::Reposition { pos, lower, upper, by_delegate }),
